@@ -11,6 +11,8 @@
 #include <string>
 #include <vector>
 #include <unistd.h>
+#include <csetjmp>
+#include <csignal>
 
 #include "hexsim.hpp"
 #include "refisa.hpp"
@@ -27,6 +29,16 @@ static const uint32_t CORNERS[] = {
   199999, 200000, 199998, 799999, 800000, 799996, 0x40000000, 0xC0000000u, 0x7FFF0000, 0x0000FFF0
 };
 static const size_t NCORNERS = sizeof(CORNERS) / sizeof(CORNERS[0]);
+
+// A crash inside the simulator on a defined instruction is a finding about that instruction, not the end of the run:
+// the faulting signal is turned into a recorded mismatch and the simulator object is rebuilt from the reference memory.
+static sigjmp_buf g_jmp;
+static volatile sig_atomic_t g_armed = 0;
+static void onFault(int sig) {
+  if (g_armed) siglongjmp(g_jmp, sig);
+  signal(sig, SIG_DFL);
+  raise(sig);
+}
 
 struct Stats {
   uint64_t steps = 0, cases = 0, filtered[6] = {0, 0, 0, 0, 0, 0};
@@ -120,7 +132,22 @@ struct Lock {
     size_t outBefore = world.consoleOut.size();
     bool threw = false; std::string thrown;
     int rv = 0;
-    try { rv = sim.p->run(); } catch (std::exception &e) { threw = true; thrown = e.what(); }
+    g_armed = 1;
+    int sig = sigsetjmp(g_jmp, 1);
+    if (sig == 0) {
+      try { rv = sim.p->run(); } catch (std::exception &e) { threw = true; thrown = e.what(); }
+      g_armed = 0;
+    } else {
+      g_armed = 0;
+      ref.step();
+      st.steps++;
+      mismatch("simulator-crash", pre, pc0, a0, b0, o0, "signal " + std::to_string(sig));
+      // rebuild the simulator from the reference state (the old object is abandoned, not destroyed)
+      (void)sim.p.release();
+      sim.fresh(sim.inContent);
+      std::memcpy(sim.p->verifMemory(), ref.mem.data(), sizeof(uint32_t) * MEM_WORDS);
+      return false;
+    }
     ref.step();
     st.steps++;
     st.loads += pre.nLoads; st.stores += pre.nStores;
@@ -444,6 +471,8 @@ static void loadCase(Stats &st, Prng &r, const std::string &ctx) {
 
 int main(int argc, char **argv) {
   if (argc < 6) { fprintf(stderr, "usage\n"); return 3; }
+  signal(SIGSEGV, onFault);
+  signal(SIGBUS, onFault);
   uint64_t seed = strtoull(argv[1], nullptr, 0);
   long ngrid = atol(argv[2]), nseq = atol(argv[3]), nsys = atol(argv[4]);
   const char *outPath = argv[5];
